@@ -72,7 +72,7 @@ def exc_name(e: BaseException) -> str:
     return n if n in known else "Other:" + n
 
 
-class CaseTimeout(Exception):
+class CaseTimeout(BaseException):
     pass
 
 
